@@ -18,8 +18,8 @@
      error, file contents or error, mod key / unusable / error, and "os.Stat
      succeeds and is not a directory".  Error kinds are not distinguished; file
      contents are identifiers with 0 standing for the empty string.
-   * Entry kind (file/dir/symlink via lstat in Entry.Kind) has no watch record
-     in the Go code and none here. *)
+   * Entry kind and symlink target (Entry.Kind / Entry.Symlink, realFS.kind)
+     are an observation [OKind] that records nothing, as in the Go code. *)
 From V Require Import Common.Base C09.Cache.
 
 Definition name := list Z.
@@ -74,7 +74,12 @@ Record wworld := mkWw {
   ww_readdir : path -> option (list name);
   ww_read : path -> rdres;
   ww_modkey : path -> mkres;
-  ww_isfile : path -> bool        (* os.Stat succeeds and !IsDir *)
+  ww_isfile : path -> bool;       (* os.Stat succeeds and !IsDir *)
+  (* Entry.Kind / Entry.Symlink of entry n of directory d (realFS.kind: lstat,
+     and EvalSymlinks + lstat of the target for a symlink):
+     kind 0 = neither (absent, dangling link, lstat error), 1 = directory, 2 = file;
+     the resolved target of a symlink, None for a plain entry *)
+  ww_kind : path -> name -> Z * option Z
 }.
 
 (* realFS.ReadDirectory (cached per build) *)
@@ -140,10 +145,11 @@ Definition op_modkey (f : wfs) (p : path) (ans : mkres) : wfs :=
 (* observations a build makes *)
 Inductive obs :=
 | OReadDir (d : path) | OGet (d : path) (n : name) | OSortedKeys (d : path)
-| OReadFile (p : path) | OModKey (p : path).
+| OReadFile (p : path) | OModKey (p : path)
+| OKind (d : path) (n : name).   (* Entry.Kind / Entry.Symlink on an entry obtained from Get *)
 
 Definition obs_path (o : obs) : path :=
-  match o with OReadDir d | OGet d _ | OSortedKeys d | OReadFile d | OModKey d => d end.
+  match o with OReadDir d | OGet d _ | OSortedKeys d | OReadFile d | OModKey d | OKind d _ => d end.
 
 Definition step_obs (w : wworld) (f : wfs) (o : obs) : wfs :=
   match o with
@@ -152,6 +158,7 @@ Definition step_obs (w : wworld) (f : wfs) (o : obs) : wfs :=
   | OSortedKeys d => op_sortedkeys f d
   | OReadFile p => op_readfile f p (ww_read w p)
   | OModKey p => op_modkey f p (ww_modkey w p)
+  | OKind _ _ => f     (* realFS.kind stores nothing for the watcher *)
   end.
 
 Definition record (w : wworld) (log : list obs) : wfs := fold_left (step_obs w) log wfs_empty.
@@ -220,7 +227,8 @@ Inductive answer :=
 | APresent (b : option bool)       (* entry present (None: directory unreadable) *)
 | AKeys (l : option (list name))   (* sorted listing *)
 | ARead (c : option Z)             (* contents, or "an error" *)
-| AStat (exists_ : bool).          (* ModKey: does stat succeed; the key itself is only ever
+| AStat (exists_ : bool)
+| AKind (k : Z) (target : option Z).   (* entry kind and resolved symlink target *)          (* ModKey: does stat succeed; the key itself is only ever
                                       used as a cache key (ModKeySound), never as a build input *)
 
 Definition answer_of (w : wworld) (o : obs) : answer :=
@@ -230,6 +238,7 @@ Definition answer_of (w : wworld) (o : obs) : answer :=
   | OSortedKeys d => AKeys (match ww_readdir w d with Some names => Some (sort_names names) | None => None end)
   | OReadFile p => ARead (match ww_read w p with RdOk c => Some c | RdErr _ => None end)
   | OModKey p => AStat (match ww_modkey w p with MKErr _ => false | _ => true end)
+  | OKind d n => AKind (fst (ww_kind w d n)) (snd (ww_kind w d n))
   end.
 
 Definition answer_eqb (a b : answer) : bool :=
@@ -239,6 +248,7 @@ Definition answer_eqb (a b : answer) : bool :=
   | AKeys x, AKeys y => option_eqb names_eqb x y
   | ARead x, ARead y => option_eqb Z.eqb x y
   | AStat x, AStat y => Bool.eqb x y
+  | AKind x s, AKind y t => (x =? y) && option_eqb Z.eqb s t
   | _, _ => false
   end.
 
